@@ -20,11 +20,13 @@ pub struct OpSpec {
     pub imported_ns: bool,
     /// header parts bound from the same message while soap:body has NO parts attribute
     pub headers_without_parts: bool,
+    /// odd-numbered header elements live in the imported namespace, even-numbered ones in the WSDL's
+    pub mixed_header_ns: bool,
 }
 
 impl OpSpec {
     pub fn simple(name: &str) -> OpSpec {
-        OpSpec { name: name.into(), output: true, in_headers: 0, out_headers: 0, explicit_parts: false, action: true, part_named_as_element: false, imported_ns: false, headers_without_parts: false }
+        OpSpec { name: name.into(), output: true, in_headers: 0, out_headers: 0, explicit_parts: false, action: true, part_named_as_element: false, imported_ns: false, headers_without_parts: false, mixed_header_ns: false }
     }
     pub fn label(&self) -> String {
         format!(
@@ -52,7 +54,7 @@ pub fn wsdl_with(ops: &[OpSpec], service: &str, address: &str) -> SchemaSet {
         w.service = service.into();
         w.address = address.into();
     }
-    let any_imported = ops.iter().any(|o| o.imported_ns);
+    let any_imported = ops.iter().any(|o| o.imported_ns || o.mixed_header_ns);
     if any_imported {
         let t = XsdFile { name: "types.xsd".into(), tns: NS_T.into(), prefixes: vec![("t".into(), NS_T.into())], default_ns: None, imports: vec![], comps: vec![] };
         s.files.push(t);
@@ -77,11 +79,18 @@ fn add_op(s: &mut SchemaSet, o: &OpSpec) {
     let pname = |el: &str| if o.part_named_as_element { el.to_string() } else { "parameters".to_string() };
     let mut in_parts = vec![Part { name: pname(&req_el), element: QName::new(&ens, &req_el) }];
     let mut in_h = vec![];
+    let mut other_ns_elems: Vec<Comp> = vec![];
     for i in 0..o.in_headers {
         let hn = format!("{name}Hdr{i}");
-        new_elems.push(anon_element(&hn, vec![el("Token", TypeRef::b("string"))]));
+        let in_other = o.mixed_header_ns && i % 2 == 1;
+        let hns = if in_other { if o.imported_ns { tns.clone() } else { NS_T.to_string() } } else { ens.clone() };
+        if in_other {
+            other_ns_elems.push(anon_element(&hn, vec![el("Token", TypeRef::b("string"))]));
+        } else {
+            new_elems.push(anon_element(&hn, vec![el("Token", TypeRef::b("string"))]));
+        }
         let pn = if o.part_named_as_element { hn.clone() } else { format!("hdr{i}") };
-        in_parts.push(Part { name: pn.clone(), element: QName::new(&ens, &hn) });
+        in_parts.push(Part { name: pn.clone(), element: QName::new(&hns, &hn) });
         in_h.push((format!("{name}In"), pn));
     }
     let mut out = None;
@@ -103,8 +112,12 @@ fn add_op(s: &mut SchemaSet, o: &OpSpec) {
     }
     if o.imported_ns {
         s.files.iter_mut().find(|f| f.name == "types.xsd").unwrap().comps.extend(new_elems);
+        s.wsdl.as_mut().unwrap().schema.comps.extend(other_ns_elems);
     } else {
         s.wsdl.as_mut().unwrap().schema.comps.extend(new_elems);
+        if !other_ns_elems.is_empty() {
+            s.files.iter_mut().find(|f| f.name == "types.xsd").unwrap().comps.extend(other_ns_elems);
+        }
     }
     let w = s.wsdl.as_mut().unwrap();
     w.messages.push(Message { name: format!("{name}In"), parts: in_parts });
@@ -142,6 +155,14 @@ pub fn wsdl_states(depth2: bool) -> Vec<State> {
     prods.push(("input-header-bound-body-parts-absent".into(), Box::new(|o: &mut OpSpec| {
         o.in_headers = 1;
         o.headers_without_parts = true;
+    })));
+    prods.push(("three-input-headers-bound-body-parts-absent".into(), Box::new(|o: &mut OpSpec| {
+        o.in_headers = 3;
+        o.headers_without_parts = true;
+    })));
+    prods.push(("input-headers-in-two-namespaces".into(), Box::new(|o: &mut OpSpec| {
+        o.in_headers = 3;
+        o.mixed_header_ns = true;
     })));
     prods.push(("output-headers-bound-body-parts-absent".into(), Box::new(|o: &mut OpSpec| {
         o.out_headers = 2;
